@@ -80,6 +80,54 @@ def correspondence(ctx):
         _non_ascii_digits(ctx, name, pool, rng)
         _long_digit_runs(ctx, name, pool, rng)
     _pickle_across_processes(ctx)
+    _ranges_are_values(ctx)
+
+
+def _ranges_are_values(ctx):
+    """a range is hashable and holds its constraints in a tuple of its own, whatever collection it was built from: the
+    star range too (the one shape whose constraints are not sorted), and a list the caller goes on editing"""
+    from univers import version_range as VR
+    from univers.version_range import VersionRange
+    for scheme, rc in sorted(VR.RANGE_CLASS_BY_SCHEMES.items()):
+        if rc.version_class is None:
+            continue
+        star = VersionConstraint(comparator="*", version_class=rc.version_class)
+        shapes = [("from_string('vers:%s/*')" % scheme, lambda: VersionRange.from_string("vers:%s/*" % scheme), None)]
+        cs_star = [star]
+        shapes.append(("%s(constraints=[*])" % rc.__name__, lambda: rc(constraints=cs_star), cs_star))
+        try:
+            vs = [rc.version_class(t) for t in ("1.0.0", "2.0.0")]
+        except Exception:  # noqa: BLE001
+            try:
+                vs = [rc.version_class(t) for t in ("1.0", "2.0")]
+            except Exception:  # noqa: BLE001
+                vs = []
+        if vs:
+            cs_one = [VersionConstraint(comparator=">=", version=vs[0])]
+            shapes.append(("%s(constraints=[>=a])" % rc.__name__, lambda: rc(constraints=cs_one), cs_one))
+        for label, mk, given in shapes:
+            ctx.count("range-values", key=label, nontrivial=True)
+            why = None
+            try:
+                r = mk()
+                before = tuple(r.constraints)
+                if not isinstance(r.constraints, tuple):
+                    why = "the constraints are held in a %s" % type(r.constraints).__name__
+                hash(r)
+                if why is None and not (r == rc(constraints=tuple(before))) or hash(r) != hash(rc(constraints=tuple(before))):
+                    why = why or "the range differs from (or hashes differently from) the range built from the tuple of the same constraints"
+                if given is not None:
+                    given.append(VersionConstraint(comparator="!=", version=vs[1]) if vs else star)
+                    if tuple(r.constraints) != before:
+                        why = why or "editing the list the range was built from changes the range"
+                    given.pop()
+            except TypeError as e:
+                why = why or "TypeError: %s" % e
+            except Exception as e:  # noqa: BLE001
+                why = why or "raises %s: %s" % (type(e).__name__, e)
+            if why:
+                ctx.disagree("range-values", label, why, "a hashable value with a tuple of its own", True,
+                             {"scheme": scheme, "built_by": label, "clause": why}, spec="a hashable value with a tuple of its own")
 
 
 def _pickle_across_processes(ctx):
